@@ -594,7 +594,10 @@ def run_case(ctx, i, rng):
     else:
         ctx.count('model_not_applicable')
     # -- exclusions
-    items = gen_exclusions(rng, cfg, base, bounded)
+    if len(base) == 1 and rng.random() < 0.7:
+        items = []   # a lone point: mostly leave it in
+    else:
+        items = gen_exclusions(rng, cfg, base, bounded)
     text = render_full(rng, spec, items)
     S = M.apply_exclusions(base, items, wf, cal)
     if not bounded and not any(t in S for t in base[-M.HORIZON // 4:]):
@@ -770,13 +773,21 @@ def run_case(ctx, i, rng):
         answers[qi]['warm'] = ask(warm1, queries[qi])
     # a different history first: extra queries whose answers are not judged
     long_history = rng.random() < (0.06 if ctx.tier == 'quick' else 0.1)
-    nhist = rng.randint(110, 160) if long_history else rng.randint(0, 30)
     lo, hi = base[0] - 7200, (limit if limit is not None else base[-1] + 7200)
-    hist_methods = ('get_next_point', 'get_next_point', 'get_first_point',
-                    'is_valid', 'get_nearest_prev_point', 'is_on_sequence')
+    if limit is not None and (hi - lo) // 60 < 130:
+        long_history = False
+    # long: > 100 distinct points for each of three cached methods, so that
+    # every per-object cache (size 100) overflows and evicts
+    nhist = rng.randint(312, 345) if long_history else rng.randint(0, 30)
+    hist_methods = ('get_next_point', 'is_valid', 'get_first_point',
+                    'get_nearest_prev_point', 'is_on_sequence')
     for h in range(nhist):
         if long_history:
-            p = lo + (hi - lo) * h // nhist // 60 * 60 + 60 * (h % 2)
+            k = h // 3
+            if (hi - lo) // 60 >= 130:
+                p = lo + (hi - lo) * k // 115 // 60 * 60
+            else:
+                p = lo + 60 * k
             method = hist_methods[h % 3]
         else:
             p = rng.choice(cands) if cands else base[0]
